@@ -23,7 +23,7 @@ func jsTable(strs map[string]bool) Term {
 		ks = append(ks, k)
 	}
 	sort.Strings(ks)
-	var l []Term
+	l := []Term{}
 	for _, k := range ks {
 		b, _ := json.Marshal(k)
 		var back string
@@ -33,6 +33,12 @@ func jsTable(strs map[string]bool) Term {
 		}
 	}
 	return L(l...)
+}
+
+func collectAll(strs map[string]bool, c driver.VerifConfig) {
+	for _, p := range driver.VerifConfigDump(c) {
+		strs[p[1]] = true
+	}
 }
 
 func settingsErrCode(err error) int {
@@ -115,8 +121,9 @@ func runC19Settings(c *Ctx, fields []driver.VerifField) {
 		dir, fname := c19Dir()
 		defer os.RemoveAll(dir)
 		driver.VerifSetCurrentConfig(cur)
-		strs := map[string]bool{}
+		strs, jstrs := map[string]bool{}, map[string]bool{}
 		collectCfg(strs, cur)
+		collectAll(jstrs, cur)
 		var initT Term
 		switch init {
 		case "absent":
@@ -131,7 +138,8 @@ func runC19Settings(c *Ctx, fields []driver.VerifField) {
 			}
 			var l []Term
 			for i := range initNames {
-				strs[initNames[i]] = true
+				jstrs[initNames[i]] = true
+				collectAll(jstrs, initCfgs[i])
 				collectCfg(strs, initCfgs[i])
 				l = append(l, L(S(initNames[i]), cfgTerm(initCfgs[i])))
 			}
@@ -142,7 +150,7 @@ func runC19Settings(c *Ctx, fields []driver.VerifField) {
 		for _, o := range ops {
 			opT = append(opT, o.term())
 			collect(strs, o.q)
-			strs[o.name] = true
+			collect(jstrs, o.q)
 			switch o.kind {
 			case "save":
 				err := driver.VerifSetConfig(fname, urlOf(o.q))
@@ -156,7 +164,7 @@ func runC19Settings(c *Ctx, fields []driver.VerifField) {
 				obs = append(obs, L(ZI(0), menuTerm(fname, o.q)))
 			}
 		}
-		in := L(S("seq"), pfTable(strs), jsTable(strs), cfgTerm(cur), initT, L(opT...))
+		in := L(S("seq"), pfTable(strs), jsTable(jstrs), cfgTerm(cur), initT, L(opT...))
 		c.Case(gen, in, L(obs...), nt, "op:seq", "init:"+init)
 	}
 	jsonSafe := func() driver.VerifConfig {
